@@ -136,7 +136,8 @@ def run(ctx):
     tabs = info.pop("tables")
     ctx.notes["tables"] = {k: info[k] for k in ("probe_programs", "binary_cells", "unary_cells",
                                                   "assign_cells", "changed", "complete")}
-    ctx.notes["exhaustive"] = ("typing/opcode tables: every operator x every ordered pair of "
+    ctx.notes["exhaustive"] = bool(info["complete"])
+    ctx.notes["exhaustive_scope"] = ("typing/opcode tables: every operator x every ordered pair of "
                                "{int,long,float,double,bool,char,string,enum} enumerated completely: %s"
                                % bool(info["complete"]))
     if info["problems"]:
